@@ -128,6 +128,7 @@ func (s *nullChunkSection) copy(dst *os.File, offset, length uint64) (uint64, ui
 	// Copy using a fixed buffer. Using io.Copy() with a LimitReader will make it
 	// create a buffer matching N of the LimitReader which can be too large
 	copied, err := io.CopyBuffer(dst, io.LimitReader(nullReader{}, int64(length)), make([]byte, 64*1024))
+	verifAsm("zero", -1, offset, uint64(copied), 0, "")
 	return uint64(copied), 0, err
 }
 
